@@ -71,6 +71,11 @@ class SymArray:
     ndim = property(lambda s: len(s.shape))
     size = property(lambda s: _prod_shape(s.shape))
 
+    @property
+    def dtype(self):
+        import numpy as _n
+        return {"c": _n.dtype(complex), "i": _n.dtype(_n.int64), "b": _n.dtype(bool)}.get(self.kind or "r", _n.dtype(float))
+
     def at(self, *idx):
         idx = tuple(_si(i) for i in idx)
         if len(idx) != self.ndim:
